@@ -1,6 +1,6 @@
 /-
 Instantiation of the RW-lock discipline model with the C01 trie model: the whole trie (everything reachable from
-the `root` field, location 2 of the regenerated table) is ONE location holding the C01 model state; an update
+the root-key field, whose location `L` is resolved from the regenerated table) is ONE location holding the C01 model state; an update
 (`ins`/`del`) is a W-mode operation that reads it, applies the C01 model step and writes it back; a lookup or an
 iteration is an R-mode operation that reads it. Helper lemmas for `Verif.Props.C16Map`.
 -/
@@ -22,30 +22,30 @@ def NoVer : Op → Prop
   | .ver _ => False
   | _ => True
 
-/-- critical section of a trie operation over location 2 -/
-def body (maxSize : Nat) (op : Op) : Prog MState Obs :=
+/-- critical section of a trie operation over location `L` -/
+def body (L : Loc) (maxSize : Nat) (op : Op) : Prog MState Obs :=
   if isUpdate op then
-    .rd 2 0 (fun s => .wr 2 0 (mstep maxSize s op).1 (.rel (.ret (mstep maxSize s op).2)))
+    .rd L 0 (fun s => .wr L 0 (mstep maxSize s op).1 (.rel (.ret (mstep maxSize s op).2)))
   else
-    .rd 2 0 (fun s => .rel (.ret (mstep maxSize s op).2))
+    .rd L 0 (fun s => .rel (.ret (mstep maxSize s op).2))
 
 def modeOfOp (op : Op) : Mode := if isUpdate op then .W else .R
 
 /-- the operation as the threads run it: take the trie's lock in the mode the real method takes, run, release -/
-def opProg (maxSize : Nat) (op : Op) : Prog MState Obs := .acq (modeOfOp op) (body maxSize op)
+def opProg (L : Loc) (maxSize : Nat) (op : Op) : Prog MState Obs := .acq (modeOfOp op) (body L maxSize op)
 
-theorem body_run (maxSize : Nat) (op : Op) (h : NoVer op) (mem : Loc → MState) :
-    ((body maxSize op).run mem).2 = (mstep maxSize (mem 2) op).2 ∧
-    ((body maxSize op).run mem).1 2 = (mstep maxSize (mem 2) op).1 := by
+theorem body_run (L : Loc) (maxSize : Nat) (op : Op) (h : NoVer op) (mem : Loc → MState) :
+    ((body L maxSize op).run mem).2 = (mstep maxSize (mem L) op).2 ∧
+    ((body L maxSize op).run mem).1 L = (mstep maxSize (mem L) op).1 := by
   cases op <;> simp [body, isUpdate, Prog.run, mstep, NoVer] at h ⊢
 
-theorem bodyOK (maxSize : Nat) (op : Op) : BodyOK (body maxSize op) := by
+theorem bodyOK (L : Loc) (maxSize : Nat) (op : Op) : BodyOK (body L maxSize op) := by
   cases op <;> simp [body, isUpdate, BodyOK]
 
 /-- sequential run of logged bodies = the C01 model run of the corresponding operations -/
-theorem seqRun_mrun (maxSize : Nat) : ∀ (es : List (LinEntry MState Obs)) (ops : List Op) (mem : Loc → MState),
-    es.map (·.prog) = ops.map (body maxSize) → (∀ op, op ∈ ops → NoVer op) →
-    (seqRun es mem).2 = (mrun maxSize (mem 2) ops).2 ∧ (seqRun es mem).1 2 = (mrun maxSize (mem 2) ops).1 := by
+theorem seqRun_mrun (L : Loc) (maxSize : Nat) : ∀ (es : List (LinEntry MState Obs)) (ops : List Op) (mem : Loc → MState),
+    es.map (·.prog) = ops.map (body L maxSize) → (∀ op, op ∈ ops → NoVer op) →
+    (seqRun es mem).2 = (mrun maxSize (mem L) ops).2 ∧ (seqRun es mem).1 L = (mrun maxSize (mem L) ops).1 := by
   intro es
   induction es with
   | nil =>
@@ -60,7 +60,7 @@ theorem seqRun_mrun (maxSize : Nat) : ∀ (es : List (LinEntry MState Obs)) (ops
     | cons o os =>
       simp only [List.map_cons, List.cons.injEq] at h
       obtain ⟨he, hes⟩ := h
-      have hb := body_run maxSize o (hnv o (by simp)) mem
+      have hb := body_run L maxSize o (hnv o (by simp)) mem
       have := ih os (e.prog.run mem).1 hes (fun op hop => hnv op (by simp [hop]))
       simp only [seqRun, mrun]
       rw [he, hb.2] at this
@@ -68,30 +68,30 @@ theorem seqRun_mrun (maxSize : Nat) : ∀ (es : List (LinEntry MState Obs)) (ops
       exact ⟨by rw [hb.1, this.1], this.2⟩
 
 /-- the programs a thread can be left with while it runs `opProg op` -/
-inductive Suffix (maxSize : Nat) (op : Op) : Prog MState Obs → Prop
-  | whole : Suffix maxSize op (.acq (modeOfOp op) (body maxSize op))
+inductive Suffix (L : Loc) (maxSize : Nat) (op : Op) : Prog MState Obs → Prop
+  | whole : Suffix L maxSize op (.acq (modeOfOp op) (body L maxSize op))
   | bodyU : isUpdate op = true →
-      Suffix maxSize op (.rd 2 0 (fun s => .wr 2 0 (mstep maxSize s op).1 (.rel (.ret (mstep maxSize s op).2))))
-  | bodyR : isUpdate op = false → Suffix maxSize op (.rd 2 0 (fun s => .rel (.ret (mstep maxSize s op).2)))
-  | wr (s : MState) : Suffix maxSize op (.wr 2 0 (mstep maxSize s op).1 (.rel (.ret (mstep maxSize s op).2)))
-  | rel (s : MState) : Suffix maxSize op (.rel (.ret (mstep maxSize s op).2))
-  | ret (r : Obs) : Suffix maxSize op (.ret r)
+      Suffix L maxSize op (.rd L 0 (fun s => .wr L 0 (mstep maxSize s op).1 (.rel (.ret (mstep maxSize s op).2))))
+  | bodyR : isUpdate op = false → Suffix L maxSize op (.rd L 0 (fun s => .rel (.ret (mstep maxSize s op).2)))
+  | wr (s : MState) : Suffix L maxSize op (.wr L 0 (mstep maxSize s op).1 (.rel (.ret (mstep maxSize s op).2)))
+  | rel (s : MState) : Suffix L maxSize op (.rel (.ret (mstep maxSize s op).2))
+  | ret (r : Obs) : Suffix L maxSize op (.ret r)
 
-theorem Suffix.ofBody (maxSize : Nat) (op : Op) : Suffix maxSize op (body maxSize op) := by
+theorem Suffix.ofBody (L : Loc) (maxSize : Nat) (op : Op) : Suffix L maxSize op (body L maxSize op) := by
   unfold body
   cases h : isUpdate op
   · simp; exact .bodyR h
   · simp; exact .bodyU h
 
 /-- every program around belongs to an operation satisfying `P` -/
-structure OpsInv (maxSize : Nat) (P : Op → Prop) (c : Config MState Obs) : Prop where
-  todo : ∀ t p, p ∈ (c.thr t).todo → ∃ op, P op ∧ p = opProg maxSize op
-  cur : ∀ t p, (c.thr t).cur = some p → ∃ op, P op ∧ Suffix maxSize op p
-  lin : ∀ e, e ∈ c.lin → ∃ op, P op ∧ e.prog = body maxSize op
+structure OpsInv (L : Loc) (maxSize : Nat) (P : Op → Prop) (c : Config MState Obs) : Prop where
+  todo : ∀ t p, p ∈ (c.thr t).todo → ∃ op, P op ∧ p = opProg L maxSize op
+  cur : ∀ t p, (c.thr t).cur = some p → ∃ op, P op ∧ Suffix L maxSize op p
+  lin : ∀ e, e ∈ c.lin → ∃ op, P op ∧ e.prog = body L maxSize op
 
-theorem OpsInv.init {maxSize : Nat} {P : Op → Prop} (ops : Tid → List Op) (mem0 : Loc → MState)
+theorem OpsInv.init {L : Loc} {maxSize : Nat} {P : Op → Prop} (ops : Tid → List Op) (mem0 : Loc → MState)
     (h : ∀ t op, op ∈ ops t → P op) :
-    OpsInv maxSize P (Verif.RW.init (fun t => (ops t).map (opProg maxSize)) mem0) where
+    OpsInv L maxSize P (Verif.RW.init (fun t => (ops t).map (opProg L maxSize)) mem0) where
   todo := by
     intro t p hp
     simp [Verif.RW.init] at hp
@@ -100,14 +100,14 @@ theorem OpsInv.init {maxSize : Nat} {P : Op → Prop} (ops : Tid → List Op) (m
   cur := by intro t p hp; simp [Verif.RW.init] at hp
   lin := by intro e he; simp [Verif.RW.init] at he
 
-theorem OpsInv.step {maxSize : Nat} {P : Op → Prop} {c c' : Config MState Obs} {t : Tid}
-    (h : OpsInv maxSize P c) (st : Step c t c') : OpsInv maxSize P c' := by
+theorem OpsInv.step {L : Loc} {maxSize : Nat} {P : Op → Prop} {c c' : Config MState Obs} {t : Tid}
+    (h : OpsInv L maxSize P c) (st : Step c t c') : OpsInv L maxSize P c' := by
   -- generic part: a step that replaces thread `t` by `x`, keeping its todo list (or a tail of it)
   have frame : ∀ (x : Thread MState Obs) (c'' : Config MState Obs),
       (∀ u, c''.thr u = (c.set t x).thr u) → c''.lin = c.lin →
       (∀ p, p ∈ x.todo → p ∈ (c.thr t).todo) →
-      (∀ p, x.cur = some p → ∃ op, P op ∧ Suffix maxSize op p) →
-      OpsInv maxSize P c'' := by
+      (∀ p, x.cur = some p → ∃ op, P op ∧ Suffix L maxSize op p) →
+      OpsInv L maxSize P c'' := by
     intro x c'' hthr hlin htodo hcur
     refine ⟨?_, ?_, fun e he => h.lin e (hlin ▸ he)⟩
     · intro u q hq
@@ -130,11 +130,11 @@ theorem OpsInv.step {maxSize : Nat} {P : Op → Prop} {c c' : Config MState Obs}
       exact ⟨op, hP, e ▸ .whole⟩
   | @acq m k hc hmn ha =>
     obtain ⟨op, hP, hs⟩ := h.cur t _ hc
-    have hk : k = body maxSize op := by
+    have hk : k = body L maxSize op := by
       cases hs; rfl
     have base := frame { c.thr t with cur := some k, main := some m, pred := some (k.run c.mem).2 }
       (c.set t { c.thr t with cur := some k, main := some m, pred := some (k.run c.mem).2 }) (fun _ => rfl) rfl
-      (fun q hq => hq) (fun q hq => by simp at hq; subst hq; exact ⟨op, hP, hk ▸ Suffix.ofBody maxSize op⟩)
+      (fun q hq => hq) (fun q hq => by simp at hq; subst hq; exact ⟨op, hP, hk ▸ Suffix.ofBody L maxSize op⟩)
     refine ⟨fun u q hq => base.todo u q hq, fun u q hq => base.cur u q hq, ?_⟩
     intro e he
     simp only [List.mem_append, List.mem_singleton] at he
@@ -174,16 +174,16 @@ theorem OpsInv.step {maxSize : Nat} {P : Op → Prop} {c c' : Config MState Obs}
     intro q hq
     simp at hq
 
-theorem OpsInv.exec {maxSize : Nat} {P : Op → Prop} {c c' : Config MState Obs} {s : List Tid}
-    (h : OpsInv maxSize P c) (ex : Exec c s c') : OpsInv maxSize P c' := by
+theorem OpsInv.exec {L : Loc} {maxSize : Nat} {P : Op → Prop} {c c' : Config MState Obs} {s : List Tid}
+    (h : OpsInv L maxSize P c) (ex : Exec c s c') : OpsInv L maxSize P c' := by
   induction ex with
   | nil => exact h
   | cons st _ ih => exact ih (h.step st)
 
 /-- the log is the list of bodies of some list of operations, each satisfying `P` -/
-theorem OpsInv.log_ops {maxSize : Nat} {P : Op → Prop} : ∀ (es : List (LinEntry MState Obs)),
-    (∀ e, e ∈ es → ∃ op, P op ∧ e.prog = body maxSize op) →
-    ∃ ops : List Op, (∀ op, op ∈ ops → P op) ∧ es.map (·.prog) = ops.map (body maxSize) := by
+theorem OpsInv.log_ops {L : Loc} {maxSize : Nat} {P : Op → Prop} : ∀ (es : List (LinEntry MState Obs)),
+    (∀ e, e ∈ es → ∃ op, P op ∧ e.prog = body L maxSize op) →
+    ∃ ops : List Op, (∀ op, op ∈ ops → P op) ∧ es.map (·.prog) = ops.map (body L maxSize) := by
   intro es
   induction es with
   | nil => intro _; exact ⟨[], by simp, rfl⟩
